@@ -49,7 +49,7 @@ def Verdict.render : Verdict → String
 def cmpApi (model rhs : String) : Verdict :=
   if model == rhs.trimAscii.toString then .ok else .spec s!"container API result differs: model={model}"
 
-def dstr (d : List Comp) : String := "d=" ++ showComps (sortComps d)
+def dstr (d : List Comp) : String := "d=" ++ showComps (sortComps (d.filter (fun c => ledgerType c.1)))
 
 def bobs (b : Builder) : String :=
   s!"types={showNats (sortNat (b.arena.slots.map (·.ty)))} vals={showComps (sortComps b.arena.vals)}"
